@@ -50,6 +50,39 @@ def init_worker():
     ditype = pheno.replace(datainfo=di.set_column(col.replace(unit='kg')))
     _STATE['variants'] = {'pheno': pheno, 'init': init, 'data': data, 'ditype': ditype}
     _STATE['res'] = res
+    _STATE['ctxcls'] = None
+    if os.environ.get('C16_MUTANT'):
+        _load_mutant(json.load(open(os.environ['C16_MUTANT'])), _FixedDateTime)
+
+
+def _load_mutant(mut, fixed_dt):
+    """SENSITIVITY TESTING ONLY (never used by ./check): load a textually mutated copy of one pharmpy source
+    file under another module name and route the harness to its classes.  /repo is not touched."""
+    import importlib.util
+    import pharmpy.workflows.contexts.baseclass as ctxbase
+    import pharmpy.workflows.contexts.local_directory as ctxld
+    repo = os.environ.get('VERIF_REPO', '/repo')
+    src = open(os.path.join(repo, 'src', mut['file'])).read()
+    assert src.count(mut['old']) == 1, (mut['file'], src.count(mut['old']))
+    src = src.replace(mut['old'], mut['new'])
+    pkg = os.path.dirname(mut['file']).replace('/', '.')
+    name = pkg + '.c16_mutant'
+    spec = importlib.util.spec_from_loader(name, loader=None)
+    mod = importlib.util.module_from_spec(spec)
+    mod.__package__ = pkg
+    mod.__file__ = os.path.join(repo, 'src', mut['file'])
+    sys.modules[name] = mod
+    exec(compile(src, mod.__file__, 'exec'), mod.__dict__)
+    if mut['file'].endswith('model_database/local_directory.py'):
+        ctxld.LocalModelDirectoryDatabase = mod.LocalModelDirectoryDatabase
+    elif mut['file'].endswith('contexts/local_directory.py'):
+        _STATE['ctxcls'] = mod.LocalDirectoryContext
+    elif mut['file'].endswith('contexts/baseclass.py'):
+        mod.datetime = fixed_dt
+        for meth in ('_store_model', '_retrieve_me', 'log_message', 'store_model_entry', 'retrieve_model_entry'):
+            setattr(ctxbase.Context, meth, getattr(mod.Context, meth))
+    else:
+        raise ValueError(mut['file'])
 
 
 def variant_info():
@@ -88,13 +121,8 @@ ERRMAP = {'PendingTransactionError': 'EPending', 'KeyError': 'EKeyError', 'FileN
           'IndexError': 'EIndexError'}
 
 
-def _equiv(got_me, spec, want_name=None):
-    """Equivalence of a retrieved ModelEntry / Model with what was stored (evaluated on the implementation)."""
-    from pharmpy.model import Model
-    from pharmpy.workflows import ModelEntry
+def _flags(model, res, is_entry, spec, want_name):
     want = _STATE['variants'][spec['variant']]
-    model = got_me.model if isinstance(got_me, ModelEntry) else got_me
-    res = got_me.modelfit_results if isinstance(got_me, ModelEntry) else None
     flags = {}
     flags['parameters'] = bool(model.parameters == want.parameters)
     flags['statements'] = bool(model.statements == want.statements)
@@ -106,14 +134,30 @@ def _equiv(got_me, spec, want_name=None):
     flags['datainfo'] = bool(model.datainfo.replace(path=None) == want.datainfo.replace(path=None))
     if want_name is not None:
         flags['name'] = model.name == want_name
-    if spec.get('res') and isinstance(got_me, ModelEntry):
+    if spec.get('res') and is_entry:
         w = _STATE['res']
         try:
             flags['results'] = bool(res is not None and res.ofv == w.ofv
                                     and (res.parameter_estimates == w.parameter_estimates).all())
         except Exception:
             flags['results'] = False
-    # which known dataset it is, which data file it is linked to
+    return flags
+
+
+def _equiv(got_me, candidates, want_name=None):
+    """Equivalence of a retrieved ModelEntry / Model with each candidate stored model (evaluated on the
+    implementation): parameters, statements, random variables, dataset, datainfo, name, results.  The
+    description is reported and compared with the expected annotation inside Coq."""
+    from pharmpy.workflows import ModelEntry
+    is_entry = isinstance(got_me, ModelEntry)
+    model = got_me.model if is_entry else got_me
+    res = got_me.modelfit_results if is_entry else None
+    eq, allflags = [], {}
+    for mk, spec in candidates.items():
+        fl = _flags(model, res, is_entry, spec, want_name)
+        allflags[mk] = fl
+        if all(fl.values()):
+            eq.append(mk)
     ds = None
     for vname, v in _STATE['variants'].items():
         try:
@@ -124,7 +168,7 @@ def _equiv(got_me, spec, want_name=None):
             pass
     p = model.datainfo.path
     mm = re.fullmatch(r'data(\d+)\.csv', p.name) if p is not None else None
-    return {'flags': flags, 'equiv': all(flags.values()), 'ds': ds, 'n': int(mm.group(1)) if mm else 0,
+    return {'flags': allflags, 'eq': eq, 'ds': ds, 'n': int(mm.group(1)) if mm else 0,
             'has_res': res is not None, 'desc': model.description, 'name': model.name}
 
 
@@ -134,7 +178,7 @@ def exec_item(st, item, models):
     from pharmpy.workflows.hashing import ModelHash
     kind = item[0]
     if kind == 'init':
-        st['ctx'] = LocalDirectoryContext(CTX_NAME, ref=st['root'])
+        st['ctx'] = (_STATE.get('ctxcls') or LocalDirectoryContext)(CTX_NAME, ref=st['root'])
         st['ctx'].broadcast_message = lambda *a, **k: None
         return None
     ctx = st['ctx']
@@ -157,11 +201,14 @@ def exec_item(st, item, models):
         return None
     if kind == 'retrieve':
         me = ctx.retrieve_model_entry(item[1])
-        return _equiv(me, models[item[2]], want_name=item[1])
+        cands = {mk: ms for mk, ms in models.items() if ms['name'] == item[1]}
+        return _equiv(me, cands, want_name=item[1])
     if kind == 'dbretrieve':
         key = ModelHash(st['keys'][models[item[1]]['variant']])
         model = ctx.model_database.retrieve_model(key)
-        return _equiv(model, models[item[1]])
+        v = models[item[1]]['variant']
+        cands = {mk: ms for mk, ms in models.items() if ms['variant'] == v}
+        return _equiv(model, cands)
     if kind == 'getannot':
         return {'text': ctx.retrieve_annotation(item[1])}
     if kind == 'getlog':
